@@ -102,8 +102,11 @@ Lemma gen_call_repr_char d f a b :
   gen_call_repr d [TFn f] (gen_seq_repr d [a; b]) = TFn f :: seq_repr [a; b].
 Proof. unfold gen_call_repr. rewrite gen_seq_repr_char. reflexivity. Qed.
 Lemma gen_insub_repr_char d neg a s :
-  gen_insub_repr d (gen_insub_op neg) a s = a ++ insub_op neg ++ [TLP] ++ s ++ [TRP].
-Proof. unfold gen_insub_repr, gen_insub_op, insub_op. destruct neg; reflexivity. Qed.
+  gen_insub_repr d (gen_insub_op neg) a s = insub_repr (insub_op neg) a s.
+Proof.
+  unfold gen_insub_repr, gen_insub_op, insub_repr, insub_op. rewrite head_is_lp.
+  destruct neg, (is_lp_headed a); cbn [app]; rewrite <- ?app_assoc; reflexivity.
+Qed.
 Lemma g_atom_toks_char d a : g_atom_toks d a = atom_toks a.
 Proof. destruct a; reflexivity. Qed.
 
